@@ -178,7 +178,7 @@ def hook_arguments(rep: C.Report) -> None:
     AST facts on expand_recurse: template_fn(<f(name)>, M) and post_template_fn(<f(name)>, M, T) where M is the map the
     argument loop of the same call fills (`M[k] = ...`) and T is the variable holding the default expansion; the value
     post_template_fn returns replaces T only when it is not None.  If a fact fails, recording hooks are replayed."""
-    ob = rep.add(C.Ob("Ob6 template_fn / post_template_fn receive the call's name and final argument map; a non-None post_template_fn result replaces the expansion", "AST facts + replay", ["core.py:Wtp.expand.expand_recurse (hook call sites)"], "both hook call sites and every expansion of an argument name/value in the argument loop; replay: 5 calls with positional, named, duplicate and nested arguments, under full expansion and with only the outer template selected"))
+    ob = rep.add(C.Ob("Ob6 template_fn / post_template_fn receive the call's name and final argument map; a non-None post_template_fn result replaces the expansion", "AST facts + replay", ["core.py:Wtp.expand.expand_recurse (hook call sites)"], "both hook call sites and every expansion of an argument name/value in the argument loop; recording hooks on every run: 6 calls with positional, named, duplicate, nested and zero-named arguments, under full expansion and with only the outer template selected"))
     try:
         tree = ast.parse(open(os.path.join(C.SRC, "core.py")).read())
         fns = [f for q, f in AP.functions(tree) if q[-1] == "expand_recurse"]
@@ -217,10 +217,7 @@ def hook_arguments(rep: C.Report) -> None:
             problems.append("hook call sites not found")
         ob.conditions = ob.queries = ob.paths = len(tf) + len(ptf)
         ob.samples.append({"argument_maps": sorted(maps), "template_fn_calls": len(tf), "post_template_fn_calls": len(ptf), "problems": problems})
-        if not problems and not C.distrust():
-            ob.verdict = C.DISCHARGED
-            ob.confirmed_conditions = ob.conditions
-            return
+        # the recording hooks run on every check (validation of the facts against the real expander, 12 expand() calls)
         from wikitextprocessor import Wtp
 
         w = Wtp(quiet=True, quiet_output=True)
@@ -231,6 +228,7 @@ def hook_arguments(rep: C.Report) -> None:
             ("{{t|a|1=c}}", [("t", {1: "c"})], "<T[c]>"),
             ("{{t| x |k= y }}", [("t", {1: " x ", "k": "y"})], "<T[ x y]>"),
             ("{{t|{{u}}}}", [("u", {}), ("t", {1: "<U>"})], "<T[<U>]>"),
+            ("{{t|0=w|x|00=v}}", [("t", {"0": "w", 1: "x", "00": "v"})], "<T[x]>"),
             ("{{T%20x}}", [("T x", {})], "[[:Template:T%20x]]"),
         ):
             seen, post = [], []
@@ -254,6 +252,10 @@ def hook_arguments(rep: C.Report) -> None:
                     v = rep.violation(f"expand({doc!r}, {kwt}template_fn=<records, returns None>, post_template_fn=<wraps the expansion in <>>)", f"template_fn saw {seen}, post_template_fn saw {[(n, a) for n, a, _ in post]}, result {out!r}; expected calls {want_calls} and result {want_out!r}", {"doc": doc})
                     ob.verdict = C.VIOLATED if v.known is None else C.KNOWN
                     return
+        if not problems and not C.distrust():
+            ob.verdict = C.DISCHARGED
+            ob.confirmed_conditions = ob.conditions
+            return
         ob.detail = f"{problems} but the recording hooks see the right names and maps -> inconclusive"
     except Exception as e:  # noqa: BLE001
         ob.detail += f"{type(e).__name__}: {e}"
